@@ -67,20 +67,22 @@ def dpq_unit(entry):
                 args[a] = c.real(a, lo=-3, hi=3)
             else:
                 args[a] = c.real(a, lo=0.2, hi=5)
-        if fn == "ppf":
-            x = c.real("p", lo=0.05, hi=0.95)
-        elif dist in stubs.DISCRETE:
-            x = c.intreal("x", lo=0, hi=15)
-            if dist == "binom":
-                c.assume(x <= args["size"])      # argument in the support (log-pmf is -inf outside it)
-        elif dist == "uniform":
-            x = args["min"] + c.real("ux", lo=0.1, hi=0.9) * (args["max"] - args["min"])
-        elif dist == "beta":
-            x = c.real("x", lo=0.05, hi=0.95)
-        elif dist == "norm":
-            x = c.real("x", lo=-4, hi=4)
-        else:
-            x = c.real("x", lo=0.1, hi=8)
+        def draw_x(sfx=""):
+            if fn == "ppf":
+                return c.real("p" + sfx, lo=0.05, hi=0.95)
+            if dist in stubs.DISCRETE:
+                v = c.intreal("x" + sfx, lo=0, hi=15)
+                if dist == "binom":
+                    c.assume(v <= args["size"])      # argument in the support (log-pmf is -inf outside it)
+                return v
+            if dist == "uniform":
+                return args["min"] + c.real("ux" + sfx, lo=0.1, hi=0.9) * (args["max"] - args["min"])
+            if dist == "beta":
+                return c.real("x" + sfx, lo=0.05, hi=0.95)
+            if dist == "norm":
+                return c.real("x" + sfx, lo=-4, hi=4)
+            return c.real("x" + sfx, lo=0.1, hi=8)
+        x = draw_x()
         if c.mode == "concrete" and "x_override" in c.values and fn != "ppf":
             x = float(c.values["x_override"])      # replay at an extreme argument (see tail_replay)
         f = getattr(distn, rname)
@@ -103,6 +105,16 @@ def dpq_unit(entry):
                 kw["log"] = False
             gv = f(xs, **kw)
             c.prove(np.asarray(gv, dtype=object).shape == (2,), "%s is vectorised over its first argument" % rname)
+            # the caller refills the SAME array in place and asks again: nothing about the earlier contents may be remembered
+            x2, x3 = draw_x("_b"), draw_x("_c")
+            xs[0], xs[1] = x2, x3
+            gv2 = np.asarray(f(xs, **kw), dtype=object).ravel()
+            if gv2.shape == (2,):
+                for i_, xv in enumerate((x2, x3)):
+                    want = oracle(c, st, dist, fn, xv, conv(args))
+                    c.prove(near(gv2[i_], want, c, eps=0, tol=1e-9) if c.mode != "sym" else close(gv2[i_], want, c),
+                            "%s on an array refilled in place: entry %d is the value at the new contents" % (rname, i_))
+            c.prove(close(xs[0], x2, c) and close(xs[1], x3, c), "%s leaves the array it is given unchanged" % rname)
     return Unit("C19.%s" % rname, h, bounds={"function": rname, "args": argn}, max_paths=20, tol=1e-9,
                 replay=(lambda vals, label: tail_replay(h, vals, label)) if has_log else None)
 
@@ -153,6 +165,18 @@ def nbinom_unit():
                 c.prove(close(g4, st.term("nbinom", "pmf", x, dict(n=size, p=p, loc=0)), c), "dnbinom(prob=, log=False) is scipy's nbinom.pmf")
             else:
                 c.prove(near(g3, want, c, tol=1e-8), "mean/size form agrees with the standard (n, p) form")
+            # one observation array, refilled in place between two calls (a preallocated buffer)
+            x2 = c.intreal("x_b", lo=0, hi=30)
+            x3 = c.intreal("x_c", lo=0, hi=30)
+            buf = arr(c, [x, x2]) if c.mode == "sym" else np.array([x, x2], dtype=float)
+            distn.dnbinom(buf, size, mu=mu, log=True)
+            buf[0], buf[1] = x3, x
+            gb = np.asarray(distn.dnbinom(buf, size, mu=mu, log=True), dtype=object).ravel()
+            c.prove(gb.shape == (2,), "dnbinom is vectorised over its first argument")
+            if gb.shape == (2,):
+                for i_, xv in enumerate((x3, x)):
+                    wv = expr.ev(ref, {"y": xv, "yh": mu, "sp": size, "w": 1})
+                    c.prove(near(gb[i_], wv, c, tol=1e-9), "dnbinom(mu=) on an array refilled in place: entry %d is the value at the new contents" % i_)
             raised = 0
             for kw in (dict(), dict(prob=0.5, mu=1.0)):
                 try:
